@@ -233,6 +233,48 @@ def _shard(shard, col: Collector):
                 for key, msg in check_crowding([c1, c2], True):
                     col.violation(key, "crowd", msg, {"columns": [c1, c2], "exact": True})
         col.sample({"kind": "crowding-exact large front", "n": n}, 1)
+    elif kind == "crowd_scale":
+        # the formula is scale invariant: the same ladders at scales 1e-17 .. 1e17 and shifted far from zero
+        for n in (3, 4, 5):
+            for perm in itertools.permutations(UNEVEN[:n]):
+                for sc, sh in ((1e-17, 0.0), (1e-300, 0.0), (1e17, 0.0), (1.0, 1e6), (1e-9, 1.0)):
+                    c1 = tuple(sh + sc * v for v in UNEVEN[:n])
+                    c2 = tuple(sh + sc * v for v in perm)
+                    if len(set(c1)) < n or len(set(c2)) < n:
+                        continue
+                    col.case()
+                    col.nontrivial(("cs", c1, c2))
+                    for key, msg in check_crowding([c1, c2], True):
+                        col.violation(key + ":scaled", "crowd", msg, {"columns": [c1, c2], "exact": True})
+        col.sample({"kind": "crowding at scale 1e-17", "columns": [[0.0, 1e-17, 3e-17], [3e-17, 0.0, 1e-17]]}, 1)
+    elif kind == "trunc_moved":
+        # individuals that have been hashed (by an earlier truncation) and were then moved onto another design in place
+        from artap.operators import nondominated_truncate
+        vecs = list(itertools.product((-2.0, -1.0, 0.0), repeat=2))
+        for a in vecs:
+            for b in vecs:
+                for c in vecs:
+                    if len({a, b, c}) < 3:
+                        continue
+                    for how in ("in_place", "reassign"):
+                        col.case()
+                        col.nontrivial(("tm", a, b, c, how))
+                        pop = build([a, b, c], "id")
+                        nondominated_truncate(list(pop), 3)
+                        if how == "in_place":
+                            pop[0].vector[0], pop[0].vector[1] = b
+                        else:
+                            pop[0].vector = list(b)
+                        pop[0].costs_signed = list(pop[1].costs_signed)
+                        from .c02 import selector
+                        selector().fast_nondominated_sorting(pop)
+                        res = nondominated_truncate(list(pop), 3)
+                        kept = [tuple(r.vector) for r in res]
+                        if len(kept) != 2 or len(set(kept)) != 2:
+                            col.violation("C03:truncate:moved-individual-not-deduplicated", "tmoved",
+                                          "designs %r, %r, %r; the first was moved %s onto the second after a truncation: truncate returned %r" % (a, b, c, how, kept),
+                                          {"a": a, "b": b, "c": c, "how": how})
+        col.sample({"kind": "truncate after an individual moved onto another design", "designs": [vecs[0], vecs[1], vecs[2]]}, 1)
     elif kind == "crowd_exact":
         _, n, m, first = shard
         vals = UNEVEN[:n] if n <= len(UNEVEN) else first
@@ -278,6 +320,20 @@ def replay(sub, case):
         return check_truncate([t(v) for v in case["vectors"]], case["fn"], case["k"])
     if sub == "crowd":
         return check_crowding([t(c) for c in case["columns"]], case["exact"])
+    if sub == "tmoved":
+        from artap.operators import nondominated_truncate
+        from .c02 import selector
+        a, b, c = t(case["a"]), t(case["b"]), t(case["c"])
+        pop = build([a, b, c], "id")
+        nondominated_truncate(list(pop), 3)
+        if case["how"] == "in_place":
+            pop[0].vector[0], pop[0].vector[1] = b
+        else:
+            pop[0].vector = list(b)
+        pop[0].costs_signed = list(pop[1].costs_signed)
+        selector().fast_nondominated_sorting(pop)
+        kept = [tuple(r.vector) for r in nondominated_truncate(list(pop), 3)]
+        return [] if (len(kept) == 2 and len(set(kept)) == 2) else [("C03:truncate:moved-individual-not-deduplicated", "returned %r" % (kept,))]
     if sub == "tour":
         return check_tournament([t(c) for c in case["costs"]], case["ranked"], t(case["pair"]), case["coin"])
     raise ValueError(sub)
@@ -304,7 +360,7 @@ def run(tier, seed):
             shards.append(("trunc", "id", 6, (v, w)))
     # crowding
     shards += [("crowd_exact", n, 1, tuple(float(x * x) for x in range(n))) for n in (7, 8, 12)]
-    shards += [("crowd_big", n) for n in (7, 9)]
+    shards += [("crowd_big", n) for n in (7, 9)] + [("crowd_scale",), ("trunc_moved",)]
     for n in (1, 2, 3, 4, 5) + ((6,) if tier == "thorough" else ()):
         for m in (1, 2, 3):
             if n >= 5 and m == 3 and tier != "thorough":
